@@ -37,6 +37,7 @@ import (
 	"net/http"
 	"net/url"
 	"strings"
+	"sync"
 	"time"
 
 	"github.com/WICG/webpackage/go/bundle"
@@ -107,6 +108,11 @@ func c19ErrClass(err error) string {
 	return "other error returned"
 }
 
+var (
+	c19RefMu   sync.Mutex
+	c19RefSeen = map[string][]byte{}
+)
+
 // c19Explore is one execution of a serializer family harness.
 func c19Explore(c *mc.Ctx, arts []c19Art) {
 	a := arts[c.Free(len(arts), "artifact")]
@@ -120,6 +126,21 @@ func c19Explore(c *mc.Ctx, arts []c19Art) {
 		c.Outcome("VIOLATION: fault-free run failed")
 		c.Fail("C19/"+id+":ref", "the serializer failed (or miscounted) on a plain bytes.Buffer with no fault at all", id, fmt.Sprintf("nil error, count %d", len(ref)), fmt.Sprintf("err=%v panic=%q count=%d len=%d", refErr, refPan, refCount, len(ref)))
 		return
+	}
+
+	// the fault-free output of a fresh artifact must not depend on what the process did before
+	// (e.g. an earlier failed write); the first value seen is kept and decides the tree shape
+	c19RefMu.Lock()
+	first0, seen := c19RefSeen[id]
+	if !seen {
+		c19RefSeen[id] = append([]byte{}, ref...)
+		first0 = c19RefSeen[id]
+	}
+	c19RefMu.Unlock()
+	if !bytes.Equal(first0, ref) {
+		c.Outcome("VIOLATION: fault-free output changed during the run")
+		c.Fail("C19/"+id+":ref-changed", "the fault-free output of a freshly built artifact differs from the fault-free output of the same artifact earlier in this process (state left behind by earlier, possibly failed, writes)", id, hx(first0), hx(ref))
+		ref = first0
 	}
 
 	k := c.Free(len(ref)+1, "k")
@@ -151,6 +172,18 @@ func c19Explore(c *mc.Ctx, arts []c19Art) {
 	var bad []string
 	if pan != "" {
 		bad = append(bad, "panic: "+pan)
+	}
+	// history: the same artifact, freshly built, written to a healthy destination right after the
+	// failed write must still produce the fault-free output
+	{
+		var again bytes.Buffer
+		aCount, aErr, aPan := c19Call(a.build(), &again)
+		c.Transitions(1)
+		if aErr != nil || aPan != "" || !bytes.Equal(again.Bytes(), ref) || (aCount >= 0 && aCount != int64(len(ref))) {
+			c.Outcome("VIOLATION healthy write after a failed write")
+			c.Fail(key+":after", "a write to a healthy destination right after the failed write does not produce the fault-free output", input+"; then the same artifact built afresh and written to a bytes.Buffer", fmt.Sprintf("nil error, %d bytes: %s", len(ref), hx(ref)), fmt.Sprintf("err=%v panic=%q count=%d, %d bytes: %s", aErr, aPan, aCount, again.Len(), hx(again.Bytes())))
+			return
+		}
 	}
 	if k < len(ref) {
 		if pan == "" && err == nil {
